@@ -330,15 +330,15 @@ func report(cfg *config, e *Engine, results []*funcResult, tLoad, tGen, tSolve, 
 		"by_backend":               byBackend,
 		"solver_s":                 round3(solverS),
 		"load_s":                   round3(tLoad), "vcgen_s": round3(tGen), "solve_wall_s": round3(tSolve),
-		"out_of_reach":             oor,
-		"undecided":                undecided,
-		"proved_outside_baseline":  extraProved,
-		"known_findings":           knownHits,
-		"instances":                len(e.obls),
-		"evaluations":              len(e.obls),
-		"distinct_nontrivial":      nObl - byBackend["simplifier"],
-		"rule":                     "one evaluation = one obligation instance (path x site) sent to the simplifier/solvers; distinct_nontrivial = distinct obligation names not discharged by the syntactic simplifier alone",
-		"explanation":              "contract-based deductive verification: VCs generated from go/ssa of the current tree, discharged by SMT",
+		"out_of_reach":            oor,
+		"undecided":               undecided,
+		"proved_outside_baseline": extraProved,
+		"known_findings":          knownHits,
+		"instances":               len(e.obls),
+		"evaluations":             len(e.obls),
+		"distinct_nontrivial":     nObl - byBackend["simplifier"],
+		"rule":                    "one evaluation = one obligation instance (path x site) sent to the simplifier/solvers; distinct_nontrivial = distinct obligation names not discharged by the syntactic simplifier alone",
+		"explanation":             "contract-based deductive verification: VCs generated from go/ssa of the current tree, discharged by SMT",
 	}
 	if nObl != nDis {
 		// the schema wants discharged == obligations for a proof-level claim; report honestly and downgrade the level
